@@ -447,19 +447,25 @@ def isEmptyVal : GoVal → Bool
   | .slice xs => xs.isEmpty | .map kvs => kvs.isEmpty | _ => false
 
 mutual
-  def marshal (env : Env) : Nat → GoTy → GoVal → Json
-    | 0, _, _ => .null
-    | f + 1, ty, v =>
+  /-- `json.Marshal`.  `addr`: is the value addressable?  (`json.Marshal(&root)`: yes; through a pointer: yes;
+      slice elements: yes; struct fields: as the struct; MAP VALUES: no.)  The emitted `MarshalJSON` of a
+      struct-wrapped enum has a pointer receiver, which encoding/json can only call on addressable values:
+      below a map value the wrapper is marshalled as the plain struct `{"Value": …}` (known finding K29). -/
+  def marshal (env : Env) : Nat → Bool → GoTy → GoVal → Json
+    | 0, _, _, _ => .null
+    | f + 1, addr, ty, v =>
       match ty, v with
       | .named n, _ =>
           (match env.resolve 8 n with
            | some d => (match d.body, v with
-               | .enum _ true _ _ _, .strct [(_, x)] => marshal env f .iface x          -- MarshalJSON of the wrapper
-               | _, _ => marshal env f d.ty v)
+               | .enum _ true _ _ _, .strct [(_, x)] =>
+                   if addr then marshal env f true .iface x                               -- MarshalJSON of the wrapper
+                   else .obj [("Value", marshal env f false .iface x)]
+               | _, _ => marshal env f addr d.ty v)
            | none => .null)
       | .fmt k, .opaque s => .str (if s = "" then fmtZeroText k else s)
       | _, .nil => .null
-      | .ptr t, .ptrTo x => marshal env f t x
+      | .ptr t, .ptrTo x => marshal env f true t x
       | _, .int i => .num (i : Rat)
       | _, .float q => .num q
       | _, .str s => .str s
@@ -467,24 +473,24 @@ mutual
       | _, .iface j => j
       | .slice t, .slice xs => .arr (marshalElems env f t xs)
       | .map t, .map kvs => .obj (marshalMap env f t kvs)
-      | .strct tfs, .strct fs => .obj (marshalFields env f tfs fs)
+      | .strct tfs, .strct fs => .obj (marshalFields env f addr tfs fs)
       | _, _ => .null
   def marshalElems (env : Env) : Nat → GoTy → List GoVal → List Json
     | 0, _, _ => []
     | _ + 1, _, [] => []
-    | f + 1, t, x :: xs => marshal env f t x :: marshalElems env f t xs
+    | f + 1, t, x :: xs => marshal env f true t x :: marshalElems env f t xs
   def marshalMap (env : Env) : Nat → GoTy → List (String × GoVal) → List (String × Json)
     | 0, _, _ => []
     | _ + 1, _, [] => []
-    | f + 1, t, (k, x) :: rest => (k, marshal env f t x) :: marshalMap env f t rest
-  def marshalFields (env : Env) : Nat → List Field → List (String × GoVal) → List (String × Json)
-    | 0, _, _ => []
-    | _ + 1, [], _ => []
-    | f + 1, fl :: rest, fs =>
+    | f + 1, t, (k, x) :: rest => (k, marshal env f false t x) :: marshalMap env f t rest
+  def marshalFields (env : Env) : Nat → Bool → List Field → List (String × GoVal) → List (String × Json)
+    | 0, _, _, _ => []
+    | _ + 1, _, [], _ => []
+    | f + 1, addr, fl :: rest, fs =>
       let x := (alookup fl.name fs).getD .nil
       let isPtrNonNil := match x with | .ptrTo _ => true | _ => false
-      if fl.omitEmpty && !isPtrNonNil && isEmptyVal x then marshalFields env f rest fs
-      else (fl.jsonKey, marshal env f fl.ty x) :: marshalFields env f rest fs
+      if fl.omitEmpty && !isPtrNonNil && isEmptyVal x then marshalFields env f addr rest fs
+      else (fl.jsonKey, marshal env f addr fl.ty x) :: marshalFields env f addr rest fs
 end
 
 /-- fuel sufficient for every function above on a document of this depth -/
@@ -498,6 +504,6 @@ def unmarshal (w : Wire) (env : Env) (root : String) (j : Json) : R GoVal :=
     .error (.unmodelled "named-format-type")
   else decode w env (runFuel j) (.named root) j
 
-def marshalRoot (env : Env) (root : String) (v : GoVal) : Json := marshal env 1000 (.named root) v
+def marshalRoot (env : Env) (root : String) (v : GoVal) : Json := marshal env 1000 true (.named root) v
 
 end GJS
